@@ -79,9 +79,12 @@ contract(f"{C}::Calibrator.simulate_model", params={"params": "arr2[real]"}, ret
          modifies=["self.random_generator.state"],
          notes="ASSUMED here (joblib generator pattern); row/ensemble pairing is decided separately (C02 analysis)")
 
-contract(f"{C}::Calibrator._set_samplers_seeds", params={}, trusted=True, props=["C02"],
-         ensures=[], modifies=["self.random_generator.state"],
-         notes="ASSUMED: reseeds the (opaque) scheduler and samplers only; decided by the seed-flow analysis of C01")
+contract(f"{C}::Calibrator._set_samplers_seeds", params={}, props=["C02", "C01"],
+         # the scheduler is seeded with the calibrator's own seed; nothing else of the calibrator is touched
+         ensures=["self.scheduler.random_state == self.random_state"],
+         modifies=["self.random_generator.state", "self.scheduler.random_state"])
+loop_invariant(f"{C}::Calibrator._set_samplers_seeds", 1, over="self.scheduler.samplers", var="k",
+               inv=["self.scheduler.random_state == self.random_state"], props=["C02", "C01"])
 
 contract(f"{C}::Calibrator.check_convergence",
          params={"losses_samp": "arr1[real]", "n_sampled_params": "int", "convergence_precision": "int"},
@@ -99,6 +102,12 @@ contract(f"{C}::Calibrator.create_checkpoint", params={"file_name": "any"}, trus
          notes="ASSUMED effect summary: writes the current state to the folder (its content is decided in C04/C06)")
 
 _M = "self.current_batch_index - old(self.current_batch_index)"
+# "the smallest loss found so far rounds to zero at p decimals" / its negation, over the WHOLE recorded history
+_MINIMAL = "forall(range(0, self.n_sampled_params), lambda j: self.losses_samp[i] <= self.losses_samp[j])"
+_CONV = (f"forall(range(0, self.n_sampled_params), lambda i: implies({_MINIMAL}, "
+         "np_round(self.losses_samp[i], self.convergence_precision) == 0))")
+_NOTCONV = (f"forall(range(0, self.n_sampled_params), lambda i: implies({_MINIMAL}, "
+            "np_round(self.losses_samp[i], self.convergence_precision) != 0))")
 contract(f"{C}::Calibrator.calibrate", params={"n_batches": "int"}, returns="tuple[arr2[real],arr1[real]]",
          props=["C02", "C04", "C09", "C11", "C14", "C18"],
          requires=["n_batches >= 0", "ghost.open_sessions == 0", "not ghost.conv_seen"],
@@ -108,6 +117,9 @@ contract(f"{C}::Calibrator.calibrate", params={"n_batches": "int"}, returns="tup
              f"{_M} <= n_batches",
              f"implies(self.convergence_precision is None, {_M} == n_batches)",
              f"implies({_M} < n_batches, ghost.conv_seen)",
+             # stops early only at a batch after which the smallest recorded loss rounds to zero ...
+             f"implies({_M} < n_batches, self.convergence_precision is not None and {_CONV})",
+             # (... and "immediately, not before": loop invariant `not converged at any earlier batch`, below)
              # the triggering batch is in the checkpoint: the last checkpoint write saw the final counters
              f"implies(self.saving_folder is not None and {_M} >= 1, ghost.saved_index == self.current_batch_index "
              "and ghost.saved_n == self.n_sampled_params)",
@@ -141,6 +153,8 @@ loop_invariant(f"{C}::Calibrator.calibrate", 1, over="range(n_batches)", var="b"
                    "self.current_batch_index == old(self.current_batch_index) + b",
                    "ghost.open_sessions == 1",
                    "not ghost.conv_seen",
+                   # C14 "immediately": a further batch is started only if the history so far has NOT converged
+                   f"implies(self.convergence_precision is not None and b >= 1, {_NOTCONV})",
                    "implies(self.saving_folder is not None and b >= 1, ghost.saved_index == self.current_batch_index "
                    "and ghost.saved_n == self.n_sampled_params)",
                    "self.n_sampled_params >= old(self.n_sampled_params)",
